@@ -297,6 +297,16 @@ func C03(ctx *core.Ctx, r *core.Report) {
 			ok := len(a) == 7 && core.IsParam(a[4], strat)
 			r.Ob("strategy-propagated", spec.fn+"→editor.enter", ctx.Pos(c.Pos()), ok,
 				"the recursive enter is not given the caller's own strategy: insert/update semantics stop applying below this level")
+			// the `new` flag is decided per row (or per child): never a
+			// value carried around the loop from the previous row
+			if len(a) == 7 {
+				if ph := loopCarried(a[3], map[ssa.Value]bool{}); ph != nil {
+					r.Ob("new-flag-per-item", spec.fn+"→editor.enter", ctx.Pos(c.Pos()), false,
+						"the `new` flag handed to enter is carried from the previous iteration ("+ctx.Pos(ph.Pos())+"): once one row was created every later existing row is entered as new, so defaults overwrite and create-triggers fire on it")
+				} else {
+					r.Ob("new-flag-per-item", spec.fn+"→editor.enter", ctx.Pos(c.Pos()), true, "")
+				}
+			}
 		}
 	}
 
@@ -376,6 +386,9 @@ func C03(ctx *core.Ctx, r *core.Report) {
 		}
 	}
 	r.Floor("entry-points", n, 8)
+	// "list entries are matched by key": shared with C17/C18
+	c17KeyMatchConjunction(ctx, r)
+	c18CacheDroppedOnMutation(ctx, r)
 }
 
 // dependsOnParam is dependsOn for a parameter that may be spilled.
@@ -441,4 +454,32 @@ func skippedOnlyForEmptyKey(lookup, create ssa.CallInstruction) bool {
 		return false
 	}
 	return inner.If.Block().Dominates(create.Block())
+}
+
+// loopCarried: the value is (or is chosen from) a phi at a loop header one of
+// whose incoming values is computed inside the loop: state carried from one
+// iteration to the next. Returns that phi.
+func loopCarried(v ssa.Value, seen map[ssa.Value]bool) *ssa.Phi {
+	if seen[v] {
+		return nil
+	}
+	seen[v] = true
+	ph, ok := v.(*ssa.Phi)
+	if !ok {
+		return nil
+	}
+	b := ph.Block()
+	for i, p := range b.Preds {
+		if b.Dominates(p) { // back edge
+			if _, isConst := ph.Edges[i].(*ssa.Const); !isConst {
+				return ph
+			}
+		}
+	}
+	for _, e := range ph.Edges {
+		if r := loopCarried(e, seen); r != nil {
+			return r
+		}
+	}
+	return nil
 }
